@@ -79,6 +79,12 @@ func txCases(r *evid.Run) []txCase {
 		}
 		out = append(out, txCase{Index: len(out), Seed: seed, Profile: prof, Blocks: fuzzBlocks + 5, PerBlock: per, RunSeed: r.Seed})
 	}
+	// Histories with a key manager (appended, so the cases above stay what they were): the pool of valid
+	// transactions to mutate then holds published secrets, policies, CHURP requests and confirmations.
+	for j, k := 0, r.Pick(4, 100); j < k; j++ {
+		seed := uint64(r.Seed)*1_000_003 + uint64(1_000_000+j)*7919 + 16
+		out = append(out, txCase{Index: len(out), Seed: seed, Profile: "keymanager", Blocks: fuzzBlocks + 12, PerBlock: per, RunSeed: r.Seed})
+	}
 	return out
 }
 
